@@ -1148,6 +1148,59 @@ fn refresh_body() {
 
 // @harness
 // @prop C08
+// @tier quick
+// @timeout 900
+// @fn ZXController::refresh_memory_dependent_devices (loop structure and bank pairing; page slices cut to their first 4 bytes)
+// @sym machine, witness byte value, display bank (48K screen / bank 5 / bank 7), witness offset 0..3
+// @assert the refresh after a snapshot / screen-file load forwards the bytes of each displayable RAM bank to the display copy of THAT bank at the same offset: the witness arrives exactly once as (offset, bank, value) and nothing else arrives non-zero
+// @bound page slices shortened to 4 bytes by a stub so that the loops unroll in seconds; the full 16384-byte loops run in the thorough harness c08_snapshot_refresh_copies_ram
+// @stub ZXMemory::ram_page_data -> first 4 bytes of the same page; ZXScreen::update -> witness recorder
+// @replay solver-only
+#[kani::proof]
+#[kani::unwind(10)]
+#[kani::stub(crate::zx::memory::ZXMemory::ram_page_data, crate::zx::memory::verif_hooks::ram_page_head)]
+#[kani::stub(crate::zx::video::screen::ZXScreen::update, witness_screen_update)]
+fn c08_snapshot_refresh_bank_pairing() {
+    let m = crate::emulator::verif_hooks::any_machine();
+    let mut c = mk_controller(m, FbCtx { wx: 0, wy: 0 }, false, false);
+    let d: u8 = kani::any();
+    kani::assume(d != 0);
+    let second: bool = kani::any();
+    kani::assume(!second || m == ZXMachine::Sinclair128K);
+    let bank: u8 = match (m, second) {
+        (ZXMachine::Sinclair48K, _) => 0,
+        (_, false) => 5,
+        (_, true) => 7,
+    };
+    let sel: u8 = kani::any();
+    kani::assume(sel < 4);
+    {
+        let page = c.memory.ram_page_data_mut(bank);
+        match sel {
+            0 => page[0] = d,
+            1 => page[1] = d,
+            2 => page[2] = d,
+            _ => page[3] = d,
+        }
+    }
+    unsafe {
+        RF_REL = sel as u16;
+        RF_BANK = bank as usize;
+        RF_HITS = 0;
+        RF_DATA = 0;
+        RF_OTHER_NONZERO = false;
+    }
+    c.refresh_memory_dependent_devices();
+    unsafe {
+        kani::assert(RF_HITS == 1 && RF_DATA == d, "c08.refresh.witness_byte_forwarded_to_display_copy");
+        kani::assert(!RF_OTHER_NONZERO, "c08.refresh.nothing_else_forwarded_as_nonzero");
+    }
+    kani::cover!(second && sel == 3, "bank 7");
+    kani::cover!(m == ZXMachine::Sinclair48K, "48K");
+}
+
+// @harness
+// @prop C08
 // @tier thorough
 // @timeout 3000
 // @fn ZXController::refresh_memory_dependent_devices (the real 16384-iteration loops over ZXMemory::ram_page_data)
